@@ -630,6 +630,22 @@ def check_result(cfg, rr: RunResult, out: Outcome, tag: str, step: int, fault=No
                     number_iterations=info["number_iterations"], completed_iterations=completed, fault=fault,
                     config=cfg)
     obs["converged"] = conv
+    # measured, not judged (DESIGN 4, round k): Newton evaluates its residual criterion on the iterate BEFORE the last
+    # update; the residual of the iterate that is returned is recomputed here with the library's own residual function
+    if conv and cfg["method"] == "newton" and (cfg.get("tol_residual") or 1e300) < 1e299 and hist.get("residual"):
+        try:
+            rhs_full = np.concatenate([np.zeros(nf), obj.mass_matrix_cells.dot((b - a).ravel(order="F")), np.zeros(1)])
+            r_ret = float(np.linalg.norm(obj.residual(rhs_full, sol), 2))
+            r0 = float(hist["residual"][0])
+            if r0 > 0 and r_ret == r_ret:
+                ratio = r_ret / (float(cfg["tol_residual"]) * r0)
+                out.extra["max_returned_residual_over_criterion(newton,converged)"] = max(
+                    out.extra.get("max_returned_residual_over_criterion(newton,converged)", 0.0), ratio)
+                out.counters["probe:newton-converged-runs-residual-recomputed"] += 1
+                if ratio > 1.0:
+                    out.counters["probe:newton-converged-but-returned-iterate-misses-residual-criterion"] += 1
+        except Exception:
+            pass
 
     # ---- T: bounded number of linear solves
     # liveness bound, deliberately generous (the statement names no solve count): no retry loop around a failing solve
